@@ -10,8 +10,12 @@ BSZ = 4096
 def content(rng, n):
     if n == 0:
         return b""
-    base = bytes(rng.choice(b"abcdefgh \n0123") for _ in range(min(n, 257)))
-    return (base * (n // len(base) + 1))[:n]
+    # aperiodic: every block carries its own offset, so a block read from the wrong place is never equal to the right one
+    out = bytearray()
+    while len(out) < n:
+        out += b"%d:" % len(out)
+        out += bytes(rng.choice(b"abcdefgh \n0123") for _ in range(rng.randint(1, 9)))
+    return bytes(out[:n])
 
 
 def history(rng, size, k):
@@ -35,8 +39,8 @@ def history(rng, size, k):
             pos = rng.randint(0, size + 5)
         if rng.random() < 0.05:
             ln = 0
-        if rng.random() < 0.03:
-            ln = rng.choice([4096, 4097, 5000])
+        if rng.random() < 0.07:
+            ln = rng.choice([4095, 4096, 4097, 5000, 6144, 8191, 8192, 9000, 12000])     # reads longer than the window (whole file, long literals, gap copies)
         ops.append([pos, ln])
     return ops
 
@@ -44,12 +48,12 @@ def history(rng, size, k):
 def run(ctx):
     quick = ctx.quick()
     rng = ctx.rng
-    sizes = [0, 1, 2, 2047, 2048, 2049, 4095, 4096, 4097, 6143, 6144, 6145, 8191, 8192, 8193]
+    sizes = [0, 1, 2, 2047, 2048, 2049, 4095, 4096, 4097, 6143, 6144, 6145, 8191, 8192, 8193, 12288, 16000]
     if not quick:
-        sizes += [12288, 12289, 20000, 40000]
+        sizes += [12289, 20000, 40000]
     cases, meta = [], []
     for sz in sizes:
-        for rep in range(2 if quick else 12):
+        for rep in range(2 if quick else 60):
             c = content(rng, sz)
             ops = history(rng, sz, 60 if quick else 300)
             cases.append({"op": "reader", "content_hex": c.hex(), "reads": ops})
@@ -93,7 +97,7 @@ def run(ctx):
              ("find top 1 file start at least 0 any fewest file end", 2100), ("find top 1 at least 0 any 'zz'", 2),
              ("find all not letter not letter", 10**9), ("find all whole line", 10**9), ("find top 2 at least 3 (in 'a' to 'h')", 10**9),
              ("find all (letter = x) x", 10**9), ("find skip 2 take 2 in ' ', '\\n'", 10**9), ("find top 1 whole file", 10**9), ("replace all whole file with 'x'", 10**9),
-             ("find all whole file", 10**9),
+             ("find all whole file", 10**9), ("find all (whole file 'NOPE') or whole file", 10**9), ("find all file start (exactly 2500 any) = h at least 0 any fewest h", 6000),
              ("find all between 2 and 5 any line end", 10**9),
              # several commands over one file: every command reads the file from the start, whatever the commands before it did with their reader
              ("replace all 'a' with 'b' find all 'c'", 10**9), ("replace all digit with '#'\nreplace all 'e' with 'E'", 10**9), ("find all 'a' find all 'b' find top 1 any", 10**9),
